@@ -6,7 +6,7 @@ TPARAM_DEFAULTS = {'MatType': 'MatrixType'}
 MAXV = 12   # maximum coefficient count modelled for PPolyND's per-order caches (property C03 states 1..12)
 
 SCALAR_INT = {'int', 'long', 'size_t', 'std::size_t', 'unsigned long', 'unsigned int', 'unsigned', 'long long',
-              'std::ptrdiff_t', 'ptrdiff_t', 'difference_type', 'std::vector::size_type', 'Eigen::Index', 'Index'}
+              'std::ptrdiff_t', 'ptrdiff_t', 'unsigned char', 'uint32_t', 'uint8_t', 'std::uint32_t', 'std::uint8_t', 'short', 'difference_type', 'std::vector::size_type', 'Eigen::Index', 'Index'}
 
 
 class TD(object):
